@@ -207,13 +207,13 @@ func (f *FibStrategyHashTable) pruneTables(entry *baseFibStrategyEntry) {
 		// If virtual name is present in table
 		// AND the real name being deleted was the longest associated with the virtual name
 		// AND this real name was deleted from the real table
-		if inVirtTable && len(name) == virtEntry.md && pruned {
+		if inVirtTable && pruned {
 			_, inVirtNameTable = f.virtTableNames[virtNameHash]
 			if !inVirtNameTable {
 				// Delete the entry entirely from the virtual table too
 				// if it was removed it from the virtual name table
 				delete(f.virtTable, virtNameHash)
-			} else {
+			} else if len(name) == virtEntry.md {
 				// Update with length of next longest real prefix associated
 				// with this virtual prefix
 				for _, l := range f.virtTableNames[virtNameHash] {
